@@ -551,7 +551,7 @@ func (c *EWCase) Run() string {
 	ewLast.Result = arrOf(rd)
 	ewLast.Computed = true
 	// ---- nothing but the destination was modified
-	if dest != A {
+	if dest != A && !inF17(c) {
 		if m := A.unchanged("operand a"); m != "" {
 			return desc + ": " + m
 		}
